@@ -89,6 +89,9 @@ def _verdict(chk, rule, inst, res, detail, loc, fn):
         chk.unknown(rule, inst, "cannot prove or refute: " + detail, loc)
 
 
+FREE_SLOT_USERS = {}       # cfg -> {"consumer": (fn, loc), "producer": (fn, loc)}: who relies on the slot the ring keeps vacant
+
+
 def check_role_fn(chk, m, fn, role, cfg):
     own, peer = ("writei", "readi") if role == "producer" else ("readi", "writei")
     tag = "%s[%s]" % (fn.name, cfg)
@@ -137,6 +140,8 @@ def check_role_fn(chk, m, fn, role, cfg):
                 # next(w) != readi (R4.guard of the producer), so it cannot reach slot readi-1 until readi moves again,
                 # and that is the consumer's own next publish; R4.old-slot below checks that the slot read is the old one
                 bad = [k for k in late if ev[k].kind != "load"]
+                if late and not bad:
+                    FREE_SLOT_USERS.setdefault(cfg, {}).setdefault("consumer", (fn.name, ev[late[0]].inst.loc))
                 chk.ob("R1.payload-before-publish", pathid, not bad,
                        "the consumer only reads the payload%s" % ("" if not bad else "; write at %s" % ev[bad[0]].inst.loc) +
                        ("; %d read(s) of the old slot follow the publication of %s (safe: one slot is always kept free)" % (len(late), own)
@@ -152,7 +157,21 @@ def check_role_fn(chk, m, fn, role, cfg):
             chk.ob("R1.release-publish", pathid, strong,
                    "store of %s has ordering %s (needs >= release, or a release fence after the payload access)"
                    % (own, S.inst.ordering), S.inst.loc, fn.name)
-            if mine:
+            if mine and role == "producer":
+                # the producer may fill slot[writei] before it looks at readi: that slot is never part of the filled region
+                # [readi, writei) and the consumer's last read of it was published by a readi the producer acquired when it
+                # advanced over the previous slot (the ring never fills completely).  What it must do before PUBLISHING is an
+                # acquire load of readi (the full test decides on it and later calls inherit the edge).
+                acq = [k for k in peer_loads if k < k_s and
+                       (ev[k].inst.ordering in ACQ or _thread_fence_between(ev, k, k_s, ACQ))]
+                first_acq = min([k for k in peer_loads if ev[k].inst.ordering in ACQ], default=None)
+                if first_acq is None or min(mine) < first_acq:
+                    FREE_SLOT_USERS.setdefault(cfg, {}).setdefault("producer", (fn.name, ev[min(mine)].inst.loc))
+                chk.ob("R1.acquire-peer", pathid, bool(acq),
+                       "an atomic load of %s with ordering >= acquire precedes the publication of %s (the payload store goes to "
+                       "slot[%s], which is outside the filled region whatever %s is)" % (peer, own, own, peer),
+                       S.inst.loc, fn.name)
+            elif mine:
                 first_pay = min(mine)
                 acq = [k for k in peer_loads if k < first_pay and
                        (ev[k].inst.ordering in ACQ or _thread_fence_between(ev, k, first_pay, ACQ))]
@@ -342,6 +361,14 @@ def run_config(chk, cfg):
                                                               "one side only" if len(rs) == 1 else
                                                               "a producer-side API function that also advances readi races with the consumer and "
                                                               "destroys unread bytes"), fn.loc, fn.name)
+    users = FREE_SLOT_USERS.pop(cfg, {})
+    both = "consumer" in users and "producer" in users
+    chk.ob("R1.free-slot-one-user", "ringbuf[%s]" % cfg, not both,
+           "at most one side relies on the slot the ring keeps vacant (consumer reading the old slot after publishing: %s; producer "
+           "filling its slot before looking at readi: %s)" % (users.get("consumer", ("no",))[0], users.get("producer", ("no",))[0]) if not both else
+           "both sides spend the one vacant slot: %s reads slot readi-1 after publishing readi (%s) and %s fills slot writei before it "
+           "has seen room (%s); with a full ring the producer's staged byte lands in the slot the consumer is still reading"
+           % (users["consumer"][0], users["consumer"][1], users["producer"][0], users["producer"][1]), "", "")
     chk.expect("R2", "producer functions [%s]" % cfg, len(roles.get("producer", [])), 1)
     chk.expect("R2", "consumer functions [%s]" % cfg, len(roles.get("consumer", [])), 1)
     chk.expect("R1", "publishing paths [%s]" % cfg, n_pub, 2)
